@@ -26,6 +26,9 @@ class InvProp(Prop):
             return dict(agree=False, spec_ok=None, why="harness rejected: %s" % impl, skip=True)
         if "panic" in impl:
             return dict(agree=False, spec_ok=None, why="implementation panicked: %s" % impl["panic"], concrete=True, panic=True)
+        if "hang" in impl:
+            return dict(agree=False, spec_ok=None, impl_oracle=False, concrete=True,
+                        why="constructing/rendering the inventory did not return within %s s" % impl["hang"])
         model = reply["model"]
         why = []
         if "config" in impl or "config" in model:
